@@ -79,6 +79,12 @@ def scenario(rng):
         s.append({"do": "gate", "open": True})
         s += [{"do": "wait_producers"}, {"do": "wait_idle"}, {"do": "drop_guard"}]
     sc["kind"] = kind
+    # how the producers' handles are made and used; for scenarios that do not depend on a small queue also which constructor
+    sc["make_writer"] = rng.random() < 0.3
+    sc["write_all"] = rng.random() < 0.3
+    if kind in ("steady", "latewriter", "lastflush", "midstream") and rng.random() < 0.4:
+        sc["ctor"] = rng.choice(["new", "fn"])
+        sc["k"], sc["lossy"] = 128000, True
     return sc
 
 
